@@ -58,6 +58,14 @@ class C13(PropBase):
                 k = rng.randrange(4)
                 return (f if k == 0 else "*" + f + ";" if k == 1 else "@%012X%s;" % (rng.randrange(1 << 48), f) if k == 2 else f.lower() + "\r").encode()
             clean = [styled(gen.rand_frame(rng, rng.choice(gen.FORMATS), rng.choice(addrs))) for _ in range(rng.randrange(20, 80))]
+            # merged feeds repeat frames: a fifth of the lines repeat the line before (as it is, or in another line style), and one
+            # such pair gets a junk line right between its two halves - what is junk must not even separate two frames
+            for i in range(1, len(clean)):
+                if rng.random() < 0.2:
+                    clean[i] = clean[i - 1]
+            rp = rng.randrange(0, len(clean) - 1)
+            twin_frame = gen.rand_frame(rng, rng.choice(["df20", "df21", "df4", "tc11", "tc19.1", "df11"]), 0x400300 + rng.randrange(4))
+            clean[rp] = styled(twin_frame); clean[rp + 1] = styled(twin_frame)
             mixed = list(clean)
             jl = junk_lines(rng)
             jl_big = max(jl, key=len)
@@ -75,8 +83,12 @@ class C13(PropBase):
             picks = forced + [rng.choice(jl) for _ in range(rng.randrange(1, 15))]
             if c == 1:
                 picks = forced + list(jl)          # every kind of junk line once (the other streams draw from them)
+            between = rng.choice([j for j in jl if len(j) < 200])
+            mixed.insert(rp + 1, between)          # first, so that the positions drawn below cannot move it away from the pair
             for j in picks:
                 pos = rng.randrange(len(mixed) + 1)
+                if pos == rp + 1 or pos == rp + 2:
+                    pos = 0
                 mixed.insert(pos, j)
                 try:
                     j.decode("utf-8")
